@@ -81,6 +81,7 @@ static long tf_j = -1, th_j = -1, tf_count = 0, th_count = 0, th_quiet_ms = 120,
 static int tf_errno = 0, tf_persist = 0, tf_fired = 0;
 static long long last_event_ns = 0;
 static long m_events = 0;
+static char lock_unsupported[256];   /* FCSHIM_LOCK_UNSUPPORTED, see fcntl() */
 static int hold_started = 0;
 static __thread const char *cur_call = NULL, *cur_p1 = NULL, *cur_p2 = NULL;
 #define SET_CUR(c, a, b) do { cur_call = (c); cur_p1 = (a); cur_p2 = (b); } while (0)
@@ -305,6 +306,7 @@ __attribute__((constructor)) static void init(void) {
         if (q) th_quiet_ms = atol(q);
         if (mx) th_max_ms = atol(mx);
     }
+    if (getenv("FCSHIM_LOCK_UNSUPPORTED")) snprintf(lock_unsupported, sizeof lock_unsupported, "%s", getenv("FCSHIM_LOCK_UNSUPPORTED"));
     const char *lg = getenv("FCSHIM_LOG");
     if (lg) log_fd = (int)syscall(SYS_openat, AT_FDCWD, lg, O_WRONLY | O_CREAT | O_APPEND | O_CLOEXEC, 0644);
     active = 1;
@@ -343,6 +345,15 @@ int renameat(int d1, const char *a, int d2, const char *b) {
     char b1[PATH_MAX], b2[PATH_MAX];
     const char *p1 = absolute(d1, a, b1, sizeof b1), *p2 = absolute(d2, b, b2, sizeof b2);
     PATH_CALL_INT('m', "rename", p1, p2, "", real_renameat(d1, a, d2, b));
+}
+
+int renameat2(int d1, const char *a, int d2, const char *b, unsigned int flags) {
+    REAL(int, renameat2, int, const char *, int, const char *, unsigned int);
+    if (!active) return real_renameat2(d1, a, d2, b, flags);
+    char b1[PATH_MAX], b2[PATH_MAX], info[32];
+    const char *p1 = absolute(d1, a, b1, sizeof b1), *p2 = absolute(d2, b, b2, sizeof b2);
+    snprintf(info, sizeof info, flags ? "flags=%u" : "", flags);
+    PATH_CALL_INT('m', "rename", p1, p2, info, real_renameat2(d1, a, d2, b, flags));
 }
 
 int link(const char *a, const char *b) {
@@ -816,6 +827,42 @@ int ioctl(int fd, unsigned long req, ...) {
     event_end(k, cls, name, p1, p2, (req == FICLONE && emulate_clone) ? "emulated" : "", r, r < 0 ? e : 0);
     errno = e;
     return r;
+}
+
+/* FCSHIM_LOCK_UNSUPPORTED=<text>: advisory locks are "not supported" (EOPNOTSUPP, as on some network / FUSE file
+ * systems) for files whose path contains <text>; not an event. */
+static int lock_cmd(int cmd) {
+    return cmd == F_SETLK || cmd == F_SETLKW
+#ifdef F_OFD_SETLK
+        || cmd == F_OFD_SETLK || cmd == F_OFD_SETLKW
+#endif
+        ;
+}
+
+int fcntl(int fd, int cmd, ...) {
+    REAL(int, fcntl, int, int, ...);
+    va_list ap;
+    va_start(ap, cmd);
+    void *arg = va_arg(ap, void *);
+    va_end(ap);
+    if (active && lock_unsupported[0] && lock_cmd(cmd)) {
+        const char *p = path_of_fd(fd);
+        if (p && strstr(p, lock_unsupported)) { errno = EOPNOTSUPP; return -1; }
+    }
+    return real_fcntl(fd, cmd, arg);
+}
+
+int fcntl64(int fd, int cmd, ...) {
+    REAL(int, fcntl64, int, int, ...);
+    va_list ap;
+    va_start(ap, cmd);
+    void *arg = va_arg(ap, void *);
+    va_end(ap);
+    if (active && lock_unsupported[0] && lock_cmd(cmd)) {
+        const char *p = path_of_fd(fd);
+        if (p && strstr(p, lock_unsupported)) { errno = EOPNOTSUPP; return -1; }
+    }
+    return real_fcntl64 ? real_fcntl64(fd, cmd, arg) : fcntl(fd, cmd, arg);
 }
 
 /* ------------------------------------------------------------------ descriptor limit as seen by the subject
